@@ -192,21 +192,37 @@ def run(ctx):
     ktp = p.fn("metrics_exporter_prometheus::formatting::key_to_parts")
     if need(chk, "C07.d", "formatting::key_to_parts", ktp):
         sy = Sym(ktp)
+        from props.common import iteration_context
+
+        STR = ("ToString::to_string", "ToOwned::to_owned", "From::from", "Into::into", "String::from", "str::to_string", "<impl str>::to_owned", "Clone::clone", "AsRef::as_ref")
         inserts = [c for c in nonforeign_calls(ktp) if c.is_("IndexMap<K, V, S>::insert", "insert") and "indexmap" in (c.resolved or "")]
-        others = [c for c in nonforeign_calls(ktp) if "indexmap" in (c.resolved or "") and strip_generics(c.resolved).split("::")[-1] in ("entry", "or_insert", "or_insert_with", "insert_before", "shift_insert")]
-        ok = len(inserts) == 1 and inserts[0].fn is not ktp and not others
-        base_ok = False
+        others = [c for c in nonforeign_calls(ktp) if "indexmap" in (c.resolved or "") and strip_generics(c.resolved).split("::")[-1] in ("entry", "or_insert", "or_insert_with", "insert_before", "shift_insert", "extend", "retain", "remove", "swap_remove", "shift_remove", "clear", "pop")]
+        ok = len(inserts) == 1 and not others
+        why = f"{len(inserts)} insert sites, other mutations {[callee_method_name(c) for c in others]}"
         if ok:
-            a = [Sym(inserts[0].fn).operand(x) for x in inserts[0].args]
-            kv_ok = sym_is_call(strip_sym(a[1]), "ToString::to_string") and sym_is_call(strip_sym(strip_sym(a[1])[2][0]), "Label::key") and sym_is_call(strip_sym(a[2]), "ToString::to_string") and sym_is_call(strip_sym(strip_sym(a[2])[2][0]), "Label::value")
-            # the map starts from the defaults
-            init = [c for c in nonforeign_calls(ktp) if c.fn is ktp and c.is_("Option<T>::unwrap_or_default", "unwrap_or_default")]
-            base_ok = len(init) == 1 and sym_is_call(arg_syms(init[0])[0], "Option<&T>::cloned", "cloned") and is_param(strip_sym(arg_syms(init[0])[0])[2][0], 1)
-            fe = [c for c in nonforeign_calls(ktp) if c.fn is ktp and c.is_("Iterator::for_each")]
-            ok = kv_ok and base_ok and len(fe) == 1 and ktp.body.dominates(init[0].bb, fe[0].bb)
-            it = [c for c in nonforeign_calls(ktp) if c.fn is ktp and c.is_("IndexMap<K, V, S>::iter", "iter") and "indexmap" in (c.resolved or "")]
-            ok = ok and len(it) == 1 and ktp.body.dominates(fe[0].bb, it[0].bb)
-        chk.ob("C07.d", ktp.path, ok, "labels = global labels, then key labels inserted (overwriting), then rendered in map order" if ok else "label merge is not `defaults first, key labels overwrite` (e.g. entry().or_insert keeps the global label, or key labels are dropped)", ktp.loc())
+            ins = inserts[0]
+            a = [Sym(ins.fn).operand(x) for x in ins.args]
+            k_, v_ = strip_sym(sym_through(a[1], *STR)), strip_sym(sym_through(a[2], *STR))
+            kv_ok = sym_is_call(k_, "Label::key") and sym_is_call(v_, "Label::value") and repr(strip_sym(k_[2][0])) == repr(strip_sym(v_[2][0]))
+            src, whyit = iteration_context(ins)
+            each_ok = src is not None and sym_is_call(strip_sym(src), "Key::labels") and is_param(sym_through(strip_sym(src)[2][0]), 0)
+            # the map the labels are inserted into starts from the defaults (clone of parameter 1), whatever the idiom
+            mp = sym_through(a[0])
+            txt = repr(mp)
+            base_ok = "('arg', 1" in txt and any(sym_is_call(x, "Clone::clone", "Option<&T>::cloned", "cloned") for x in sym_walk(mp) if isinstance(x, tuple))
+            # rendering iterates that same map after the merge
+            anchor = None
+            if ins.fn is ktp:
+                nx = [c for c in ktp.body.calls() if c.is_("Iterator::next") and ins.bb in ktp.body.reachable(c.bb) and c.bb in ktp.body.reachable(ins.bb)]
+                anchor = nx[0].bb if nx else None
+            else:
+                fe = [c for c in ktp.body.calls() if c.is_("Iterator::for_each")]
+                anchor = fe[0].bb if len(fe) == 1 else None
+            it = [c for c in nonforeign_calls(ktp) if c.fn is ktp and c.is_("IndexMap<K, V, S>::iter", "IndexMap<K, V, S>::into_iter", "iter", "IntoIterator::into_iter") and ("indexmap" in (c.resolved or "") or "IndexMap" in repr(ktp.body.local_ty((c.args[0].get("move") or c.args[0].get("copy") or {"l": 0})["l"])))]
+            it = [c for c in it if anchor is not None and ktp.body.dominates(anchor, c.bb) and c.bb != anchor]
+            ok = kv_ok and each_ok and base_ok and bool(it)
+            why = f"key/value from one label={kv_ok}, once per key label={each_ok} ({whyit}), map starts from the defaults={base_ok}, rendered after the merge={bool(it)}"
+        chk.ob("C07.d", ktp.path, ok, "labels = global labels, then key labels inserted (overwriting), then rendered in map order" if ok else f"label merge is not `defaults first, key labels overwrite` (e.g. entry().or_insert keeps the global label, or key labels are dropped): {why}", ktp.loc())
         nm = strip_sym(strip_sym(sy.local(0))[3][0]) if strip_sym(sy.local(0))[0] == "agg" else None
         okn = nm is not None and sym_is_call(nm, "formatting::sanitize_metric_name") and sym_is_call(strip_sym(nm[2][0]), "Key::name")
         chk.ob("C07.d", f"{ktp.path} [name]", okn, "name = sanitize_metric_name(key.name())" if okn else "series name is not the sanitised key name", ktp.loc(), nontrivial=False)
